@@ -243,6 +243,12 @@ def isDataPointInTree (s : Store) (dp : Nat) : Bool :=
 def appendData (s : Store) (name : Int) (dps : List Nat) : List (Int × List Nat) :=
   alSet s.data name (s.dataOf name ++ dps)
 
+/-- reading `self._data[name]` (a `defaultdict(list)`) creates the key: `Tree.__eq__` / `__hash__`
+(through `GraphToCladesVisitor`) and `get_subtree` do this for every clone they visit.  Only a clone
+made by `create_root_node(children, data=[])` that never received a data point lacks its key. -/
+def touch (s : Store) (names : List Int) : Store :=
+  { s with data := names.foldl (fun d nm => if alHas d nm then d else d ++ [(nm, [])]) s.data }
+
 /-- `Tree.create_root_node(children, data)`; the new clone is named `num_nodes` -/
 def createRootNode (dt : Data) (s : Store) (children : List Int) (data : List Nat) :
     Option (Store × Int) := do
@@ -318,15 +324,29 @@ def getSubtree (dt : Data) (s : Store) (subRoot : Option Int) : Option Store :=
            data := f.recs.map fun n => (n.name, s.dataOf n.name),
            last := none }
 
-/-- the key of `Tree.__eq__` / `__hash__` -/
-def key (s : Store) : DF × List Nat := (Forest.canon s.forest.toDF, Forest.sortNat s.outliers)
+/-- a list of data indices as a set: sorted, duplicate free -/
+def normSet (l : List Nat) : List Nat := Forest.sortNat l.eraseDups
 
-def dfBeq : DF → DF → Bool
-  | .nil, .nil => true
-  | .cons d k s, .cons d' k' s' => d == d' && dfBeq k k' && dfBeq s s'
-  | _, _ => false
+/-- all data points listed in `_data` for the clones of a forest -/
+def below (s : Store) : SF → List Nat
+  | .nil => []
+  | .cons n k sb => s.dataOf n.name ++ (below s k ++ below s sb)
 
-def keyEq (a b : Store) : Bool := dfBeq a.key.1 b.key.1 && a.key.2 == b.key.2
+/-- `Tree.get_clades()`: for every clone the set of data points `_data` lists for it and for its
+descendants (`GraphToCladesVisitor`) -/
+def cladeList (s : Store) : SF → List (List Nat)
+  | .nil => []
+  | .cons n k sb => normSet (s.dataOf n.name ++ below s k) :: (cladeList s k ++ cladeList s sb)
+
+/-- the key of `Tree.__eq__` / `__hash__`: (frozenset of clades, frozenset of outliers).  For a
+well-formed tree without empty clones this determines the tree (`Props/C03.lean`, `treeKey_iff`);
+two clones with the same clade (possible only with an empty clone) collapse, as in the code. -/
+def key (s : Store) : List (List Nat) × List Nat := (cladeList s s.forest, normSet s.outliers)
+
+def subsetB (a b : List (List Nat)) : Bool := a.all fun c => b.contains c
+
+def keyEq (a b : Store) : Bool :=
+  subsetB a.key.1 b.key.1 && subsetB b.key.1 a.key.1 && a.key.2 == b.key.2
 
 /-- `Tree.remove_subtree(subtree)` -/
 def removeSubtree (dt : Data) (s sub : Store) : Option Store :=
@@ -371,7 +391,7 @@ def addSubtree (dt : Data) (s sub : Store) (parent : Option Int) : Option Store 
     | some pn => do
       let pi ← s.nodeIdx.lookup pn
       let _ ← s.forest.findSub pi
-      pure (s.forest.graftAt pi g)
+      pure (SF.graftAt pi g s.forest)
   let firstLabel := listMaxInt (f1.names ++ sub.nodes) (-1)
   let (data, ni, nir, ren) := relabelGrafted sub g.recs firstLabel s.data s.nodeIdx s.nodeIdxRev []
   let f2 := f1.mapRecs fun n => match ren.lookup n.idx with
@@ -510,6 +530,9 @@ end Store
 
 inductive Op where
   | create (h : Nat) (children : List Int) (data : List Nat)
+  /-- `create_root_node(children)` immediately followed by `add_data_point_to_node(dp, new_node)`
+  (the retained-path construction of `ConditionalSMCSampler._get_constrained_path`) -/
+  | createAdd (h : Nat) (children : List Int) (dp : Nat)
   | addDp (h : Nat) (dp : Nat) (node : Int)
   | rmDp (h : Nat) (dp : Nat) (node : Int)
   | rmOut (h : Nat) (dp : Nat)
@@ -529,11 +552,23 @@ def setH (sys : Sys) (h : Nat) (s : Store) : Sys := sys.set h s
 /-- one edit; `none` = the Python raises -/
 def step (dt : Data) (sys : Sys) : Op → Option Sys
   | .create h ch d => do let s ← sys[h]?; let r ← s.createRootNode dt ch d; pure (setH sys h r.1)
+  | .createAdd h ch dp => do
+      let s ← sys[h]?
+      let r ← s.createRootNode dt ch []
+      let r2 ← r.1.addDataPointToNode dt dp r.2
+      pure (setH sys h r2)
   | .addDp h dp nd => do let s ← sys[h]?; let r ← s.addDataPointToNode dt dp nd; pure (setH sys h r)
   | .rmDp h dp nd => do let s ← sys[h]?; let r ← s.removeDataPointFromNode dt dp nd; pure (setH sys h r)
   | .rmOut h dp => do let s ← sys[h]?; let r ← s.removeDataPointFromOutliers dp; pure (setH sys h r)
-  | .getSub h rt => do let s ← sys[h]?; let r ← s.getSubtree dt rt; pure (sys ++ [r])
-  | .rmSub h hs => do let s ← sys[h]?; let sb ← sys[hs]?; let r ← s.removeSubtree dt sb; pure (setH sys h r)
+  | .getSub h rt => do
+    let s ← sys[h]?; let r ← s.getSubtree dt rt
+    -- `list(self._data[node])` creates missing keys in the source tree as well (not for `root`: a copy)
+    pure (setH sys h (if rt.isSome then s.touch r.nodes else s) ++ [r])
+  | .rmSub h hs => do
+    let s ← sys[h]?; let sb ← sys[hs]?
+    -- `subtree == self` reads `_data` of every clone of both trees
+    let s' := s.touch s.nodes; let sb' := sb.touch sb.nodes
+    let r ← s'.removeSubtree dt sb'; pure (setH (setH sys hs sb') h r)
   | .addSub h hs par => do let s ← sys[h]?; let sb ← sys[hs]?; let r ← s.addSubtree dt sb par; pure (setH sys h r)
   | .relabel h => do let s ← sys[h]?; pure (setH sys h s.relabelNodes)
   | .copy h => do let s ← sys[h]?; pure (sys ++ [s])
